@@ -21,10 +21,12 @@
 //!     deletion, renaming, junk files and directories; plus the two histories in which the re-open scan does NOT load the
 //!     damaged file - (a) the item is larger than the capacity, (b) the directory holds >= 2x the (lowered) capacity, every file
 //!     damaged - followed by get (miss), re-put of the identical data, get.
+//!  S6 8 threads doing random puts/gets of a few disjoint ranges of 5 keys under a capacity of a handful of items (3 s): every
+//!     hit equals the model; after joining and reading back every entry, totals == files on disk.
 //!  S5 (last, can be skipped with VERIF_C12_SKIP_FOREIGN_DIRS=1) directories with foreign names inside a prefix directory.
 //!
 //! Deterministic inputs from VERIF_SEED (default 0); thread schedules are whatever the machine produces, so the races are
-//! repeated many times (bounded by time).  Exits 0 with `no violation found`, 1 with `WITNESS ...`, 2 on harness trouble.
+//! repeated many times (bounded by time).  VERIF_C12_ONLY=S3,S4a,... restricts the search to the named scenarios.  Exits 0 with `no violation found`, 1 with `WITNESS ...`, 2 on harness trouble.
 use std::collections::HashMap;
 use std::panic::{catch_unwind, AssertUnwindSafe};
 use std::path::{Path, PathBuf};
@@ -354,7 +356,7 @@ fn s1_history(seed: u64, capacity: u64, small: bool, ops: usize) -> W {
 }
 
 fn s1_item_of_exactly_the_capacity(seed: u64) -> W {
-    let k = 200 + 3 * seed + 1;
+    let k = 200 + 3 * seed + 2;
     let probe = tmp();
     let c = open_clean(probe.path(), 1 << 30, "S1 exact")?;
     put(&c, k, 2, 9, "S1 exact probe")?;
@@ -379,13 +381,13 @@ fn s2_same_item_from_many_threads(seed: u64, small: bool, rounds: usize) -> W {
     const THREADS: usize = 8;
     let dir = tmp();
     let root = dir.path();
-    let probe_k = 1000 + 30 * seed + 2;
+    let probe_k = 1000 + 30 * seed + 1;
     let capacity = if small { 3 * item_size_bound(probe_k, 0, 8) } else { 1 << 30 };
     let name = format!("S2 {THREADS} threads putting the same item, capacity {capacity}, seed {seed}");
     let cache = open_clean(root, capacity, &name)?;
     let mut expected_items = 0usize;
     for round in 0..rounds {
-        let k = 1000 + 30 * seed + 3 * round as u64 + 2; // scale 3000: files of several KB
+        let k = 1000 + 30 * seed + 3 * round as u64 + 1; // scale 3000: files of several KB
         let (s, e) = (round as u32 % 5, round as u32 % 5 + 3 + round as u32 % 4);
         let ctx = format!("{name}, round {round}");
         if item_size_bound(k, s, e) > capacity {
@@ -446,7 +448,7 @@ fn s3_vanished_file_race(seed: u64, budget: Duration, max_iters: usize) -> W {
             // before it shows as a wrap-around
             dir = tmp();
             cache = open_clean(dir.path(), 1 << 30, "S3")?;
-            put(&cache, 5000 + seed * 3 + 2, 0, 6, "S3 ballast")?;
+            put(&cache, 5000 + seed * 3, 0, 6, "S3 ballast")?;
         }
         let root = dir.path();
         let k = 6000 + 4000 * seed + iter as u64;
@@ -629,7 +631,7 @@ fn s4b_overfull_directory(seed: u64) -> W {
 /// S4c/S4d: damage to files the scan does load, and foreign entries, same capacity throughout
 fn s4_damage_and_junk(seed: u64) -> W {
     let cap = 1u64 << 20;
-    let k = 9800 + 3 * seed + 1;
+    let k = 9800 + 3 * seed + 2;
     let k_other = k + 3;
     let (s, e) = (4u32, 11u32);
     let header_len = 4 * (e - s + 2) as u64;
@@ -751,6 +753,60 @@ fn s4_damage_and_junk(seed: u64) -> W {
     Ok(())
 }
 
+/// S6 (3 s; 10 s when selected with VERIF_C12_ONLY): 8 threads doing random puts and gets of a few disjoint ranges of a few
+/// keys under a capacity of a handful of items; every hit is compared with the model; at the end every entry is read back
+/// and the totals must equal the directory.
+fn s6_mixed_stress(seed: u64, budget: Duration) -> W {
+    const THREADS: usize = 8;
+    const RANGES: [(u32, u32); 4] = [(0, 2), (3, 5), (6, 9), (10, 11)];
+    let started = Instant::now();
+    let mut round = 0u64;
+    while started.elapsed() < budget {
+        let dir = tmp();
+        let root = dir.path();
+        let keys: Vec<u64> = (0..5).map(|j| 20000 + 100 * seed + 3 * j + 1).collect(); // scale 150
+        let capacity = 2500u64;
+        let ctx = format!("S6 seed {seed} round {round}: {THREADS} threads, random put/get of ranges {RANGES:?} of 5 keys, capacity {capacity}");
+        let cache = open_clean(root, capacity, &ctx)?;
+        let gate = Gate::new(THREADS);
+        let handles: Vec<_> = (0..THREADS)
+            .map(|t| {
+                let (cache, gate, ctx, keys) = (cache.clone(), gate.clone(), ctx.clone(), keys.clone());
+                std::thread::spawn(move || -> W {
+                    let mut rng = Rng(mix(seed ^ round << 8, t as u64));
+                    gate.wait();
+                    for _ in 0..400 {
+                        let k = keys[rng.below(keys.len() as u64) as usize];
+                        let (s, e) = RANGES[rng.below(4) as usize];
+                        if rng.below(2) == 0 {
+                            put(&cache, k, s, e, &ctx)?;
+                        } else {
+                            get(&cache, k, s, e, true, &ctx)?;
+                        }
+                    }
+                    Ok(())
+                })
+            })
+            .collect();
+        for h in handles {
+            match h.join() {
+                Ok(Ok(())) => {},
+                Ok(Err(w)) => return Err(w),
+                Err(_) => infra("S6 worker thread died".into()),
+            }
+        }
+        for &k in &keys {
+            for (s, e) in RANGES {
+                get(&cache, k, s, e, true, &ctx)?;
+            }
+        }
+        check_accounting(&cache, root, None, &format!("{ctx}; all threads joined, every entry read back"))?;
+        round += 1;
+    }
+    eprintln!("S6: {round} rounds");
+    Ok(())
+}
+
 /// S5: directories with foreign names inside a prefix directory (`<p>` = the 2-character name of the prefix directory):
 /// `<p>AA` is valid base64 of 3 bytes, i.e. shorter than a key; the other two do not start with `<p>`.
 /// All violations found are reported together.
@@ -819,8 +875,12 @@ fn run(seed: u64) -> W {
         eprintln!("S2 done at {:?}", t.elapsed());
     }
     if on("S3") {
-        s3_vanished_file_race(seed, Duration::from_secs(10), 2000)?;
+        s3_vanished_file_race(seed, Duration::from_secs(8), 1500)?;
         eprintln!("S3 done at {:?}", t.elapsed());
+    }
+    if on("S6") {
+        s6_mixed_stress(seed, Duration::from_secs(if only.is_empty() { 3 } else { 10 }))?;
+        eprintln!("S6 done at {:?}", t.elapsed());
     }
     if on("S5") && std::env::var("VERIF_C12_SKIP_FOREIGN_DIRS").map_or(true, |v| v != "1") {
         s5_foreign_directories(seed)?;
